@@ -150,8 +150,12 @@ def constructor(repo, res, init):
         dimv, unitv = [norm(e) for e in loop[0].target.elts]
         # the unit as stored, or with a numeric coefficient split off first
         uforms = (unitv, f"{unitv}.as_coeff_Mul()[1]")
-        with_reg = [f"self.registry[str({u_})][1] {op_} {dimv}" for u_ in uforms for op_ in ("is", "==")]
-        no_reg = [f"default_lut[inv_name_alternatives[_split_prefix(str({u_}), default_lut)[1]]][1] {op_} {dimv}" for u_ in uforms for op_ in ("is", "==")]
+        # identity / equality of the two dimensions, in either operand order
+        def both(a_, b_):
+            return [f"{a_} {op_} {b_}" for op_ in ("is", "==")] + [f"{b_} {op_} {a_}" for op_ in ("is", "==")]
+
+        with_reg = [t_ for u_ in uforms for t_ in both(f"self.registry[str({u_})][1]", dimv)]
+        no_reg = [t_ for u_ in uforms for t_ in both(f"default_lut[inv_name_alternatives[_split_prefix(str({u_}), default_lut)[1]]][1]", dimv)]
         sums = summarise(init, body=loop[0].body, keep={dimv, unitv})
         ok = True
         n_r = {"reg": 0, "noreg": 0}
